@@ -48,8 +48,30 @@ def lookup (known : List Str) (stack : List Str) (name : Str) : Bool × Str :=
 /-- the lookup of the quoted operation name of the generic form (repaired parser) -/
 def lookupGeneric (known : List Str) (name : Str) : Bool × Str := lookup known [] name
 
+/-! ### names printed bare or quoted
+`Printer.print_identifier_or_string_literal` (attribute / property dictionary keys, `DictionaryAttr`
+keys, symbol names and `SymbolRefAttr` components) writes the name itself when
+`MLIRLexer.bare_identifier_regex.fullmatch(name)` (`[a-zA-Z_][a-zA-Z0-9_$.]*`), a string literal
+otherwise.  `lexBare` is what the lexer takes as a bare identifier at the start of a text
+(`_lex_bare_identifier`: the first character, then the longest run of suffix characters). -/
+
+/-- `[a-zA-Z_]` -/
+def isIdStart (c : Char) : Bool := c.isAlpha || c == '_'
+/-- `[a-zA-Z0-9_$.]` -/
+def isIdChar (c : Char) : Bool := c.isAlphanum || c == '_' || c == '$' || c == '.'
+
+/-- `bare_identifier_regex.fullmatch(name) is not None`: the name is printed unquoted -/
+def isBare : Str → Bool
+  | [] => false
+  | c :: cs => isIdStart c && cs.all isIdChar
+
+/-- the bare identifier the lexer reads at the start of `t` and the text left after it -/
+def lexBare : Str → Option (Str × Str)
+  | [] => none
+  | c :: cs => if isIdStart c then some (c :: cs.takeWhile isIdChar, cs.dropWhile isIdChar) else none
+
 /-! ### line protocol
-`pstr <k> <cps>` → code points written;  `lookup <known> <stack> <name>` / `glookup <known> <name>`
+`bare <cps>` → `bare` | `quoted`;  `pstr <k> <cps>` → code points written;  `lookup <known> <stack> <name>` / `glookup <known> <name>`
 → `reg <cps>` | `unreg <cps>`.  A string is a comma-separated list of code points (`-` = empty),
 a list of strings is `;`-separated (`-` = empty list, `~` = the empty string inside a list). -/
 
@@ -68,6 +90,10 @@ def showLookup (r : Bool × Str) : String := (if r.1 then "reg " else "unreg ") 
 def lineStep (st : Unit) (line : String) : Unit × String :=
   match words line with
   | ["reset"] => (st, "ok")
+  | ["bare", cps] =>
+    (match parseStr cps with
+     | some s => (st, if isBare s then "bare" else "quoted")
+     | none => (st, "bad-op"))
   | ["pstr", k, cps] =>
     (match k.toNat?, parseStr cps with
      | some k, some s => (st, showStr (printString k s))
